@@ -1,4 +1,5 @@
 import Amgcl.Proofs.SkylineNCMatrix
+import Amgcl.Proofs.StaticMatrixNC
 /-!
 # C16d — skyline LU for BLOCK values: the theorems of C16 over a non-commutative ring
 
@@ -179,6 +180,54 @@ theorem skyline_block_pivotsOK_nonsing_inv [CommRing F] {R : Type} (isZero : Mat
     PivotsOK isZero (fun a => a⁻¹) S := pivotsOK_nonsing_inv isZero S h0 hk
 
 end matrix
+
+/-! ## `static_matrix` arithmetic over a NON-COMMUTATIVE entry ring
+
+The `sm_*_spec` theorems of `Properties/C16.lean` assume a commutative entry ring.  All of them except the scalar
+multiple hold verbatim over any ring (`static_matrix<static_matrix<..>>`-like nestings, quaternion entries);
+`operator*=(scalar)` multiplies the entries from the RIGHT, so it denotes `a ↦ a·c` entrywise, which is `c • a` only in
+the commutative case. -/
+section staticMatrixNC
+variable {K : Type} [Ring K] {N P M L : Nat}
+
+theorem sm_add_spec_nc (a b : SMat K N M) : (a + b).toMatrix = a.toMatrix + b.toMatrix := SMatNC.toMatrix_add a b
+theorem sm_sub_spec_nc (a b : SMat K N M) : (a - b).toMatrix = a.toMatrix - b.toMatrix := SMatNC.toMatrix_sub a b
+theorem sm_neg_spec_nc (a : SMat K N M) : (-a).toMatrix = -a.toMatrix := SMatNC.toMatrix_neg a
+theorem sm_mul_spec_nc (a : SMat K N P) (b : SMat K P M) : (a * b).toMatrix = a.toMatrix * b.toMatrix := SMatNC.toMatrix_mul a b
+theorem sm_zero_spec_nc : (0 : SMat K N M).toMatrix = 0 := SMatNC.toMatrix_zero
+theorem sm_identity_spec_nc : (SMat.identity : SMat K N N).toMatrix = 1 := SMatNC.toMatrix_identity
+theorem sm_adjoint_spec_nc (conj : K → K) (a : SMat K N M) :
+    (SMat.adjoint conj a).toMatrix = a.toMatrix.transpose.map conj := SMatNC.toMatrix_adjoint conj a
+/-- the scalar multiple scales from the right -/
+theorem sm_smul_spec_nc (c : K) (a : SMat K N M) : (SMat.smul c a).toMatrix = a.toMatrix.map (· * c) :=
+  SMatNC.toMatrix_smul c a
+
+/-- `(ab)c = a(bc)` as an equality of buffers, entries in any ring -/
+theorem sm_mul_assoc_nc (a : SMat K N P) (b : SMat K P M) (c : SMat K M L) : (a * b) * c = a * (b * c) := by
+  apply SMat.ext_of_toMatrix (SMatNC.wf_mul _ _) (SMatNC.wf_mul _ _)
+  rw [sm_mul_spec_nc, sm_mul_spec_nc, sm_mul_spec_nc, sm_mul_spec_nc, Matrix.mul_assoc]
+
+theorem sm_mul_sub_nc (a : SMat K N P) (b c : SMat K P M) : a * (b - c) = a * b - a * c := by
+  apply SMat.ext_of_toMatrix (SMatNC.wf_mul _ _) (SMatNC.wf_sub _ _)
+  rw [sm_mul_spec_nc, sm_sub_spec_nc, sm_sub_spec_nc, sm_mul_spec_nc, sm_mul_spec_nc, Matrix.mul_sub]
+
+theorem sm_sub_mul_nc (a b : SMat K N P) (c : SMat K P M) : (a - b) * c = a * c - b * c := by
+  apply SMat.ext_of_toMatrix (SMatNC.wf_mul _ _) (SMatNC.wf_sub _ _)
+  rw [sm_mul_spec_nc, sm_sub_spec_nc, sm_sub_spec_nc, sm_mul_spec_nc, sm_mul_spec_nc, Matrix.sub_mul]
+
+theorem sm_one_mul_nc (b : SMat K N M) (hb : b.WF) : (SMat.identity : SMat K N N) * b = b := by
+  apply SMat.ext_of_toMatrix (SMatNC.wf_mul _ _) hb
+  rw [sm_mul_spec_nc, sm_identity_spec_nc, Matrix.one_mul]
+
+theorem sm_mul_one_nc (a : SMat K N M) (ha : a.WF) : a * (SMat.identity : SMat K M M) = a := by
+  apply SMat.ext_of_toMatrix (SMatNC.wf_mul _ _) ha
+  rw [sm_mul_spec_nc, sm_identity_spec_nc, Matrix.mul_one]
+
+/-- non-vacuity: entries in the non-commutative ring `Matrix (Fin 2) (Fin 2) ℤ` (a 1 x 1 static matrix of blocks) -/
+example : ((⟨#[a00]⟩ : SMat B2 1 1) * ⟨#[a01]⟩).toMatrix = (⟨#[a00]⟩ : SMat B2 1 1).toMatrix * (⟨#[a01]⟩ : SMat B2 1 1).toMatrix :=
+  sm_mul_spec_nc _ _
+
+end staticMatrixNC
 
 /-! ## non-vacuity: a 2 x 2 block system whose 2 x 2 integer blocks do not commute -/
 section examples
